@@ -128,6 +128,12 @@ class C15:
                 # package.toml details that must survive normalisation: the buildpack uri as written, the platform
                 comps.append({"dir": "meta/" + name, "id": "verif/" + name, "deps": deps,
                               "uri": rng.choice([".", ".", "./"]), "os": rng.choice([None, None, "linux", "windows"])})
+            # nested layout: some libcnb.rs buildpacks live INSIDE a composite's directory (whether or not that
+            # composite depends on them); packaging from the composite's directory selects the composite only
+            if comps and rng.random() < 0.5:
+                outer = rng.choice(comps)
+                for L in rng.sample(libs, rng.randint(1, min(2, len(libs)))):
+                    L["dir"] = outer["dir"] + "/components/" + L["dir"].split("/")[-1]
             foreign = [{"dir": "foreign/x", "id": "other/x"}] if rng.random() < 0.6 else []
             cw = rng.random()
             if cw < 0.45:
@@ -164,7 +170,7 @@ class C15:
             open(os.path.join(d, "buildpack.toml"), "w").write(f'api = "0.10"\n\n[buildpack]\nid = "{L["id"]}"\nversion = "0.1.0"\n{L["extra"]}')
         for C in c["comps"]:
             d = os.path.join(root, C["dir"])
-            os.makedirs(d)
+            os.makedirs(d, exist_ok=True)
             order = "".join(f'\n[[order.group]]\nid = "{i}"\nversion = "0.1.0"\n' for k, i in C["deps"] if k == "lib") or '\n[[order.group]]\nid = "x/y"\nversion = "1.0.0"\n'
             open(os.path.join(d, "buildpack.toml"), "w").write(f'api = "0.10"\n\n[buildpack]\nid = "{C["id"]}"\nversion = "0.1.0"\n\n[[order]]\n{order}')
             pk = '[buildpack]\nuri = "%s"\n' % C.get("uri", ".")
